@@ -366,6 +366,38 @@ def rule_len(F):
                 res.ok()
             else:
                 res.bad("M-LEN:%s:constructed-len" % sp.rsplit("::", 1)[-1], b.where(), "%s builds a WBTreeMap whose len derives from %s, not from Node::size of its root" % (p, sorted(labs)))
+    # insert: len grows exactly when no value was replaced; remove: len shrinks exactly when the key was present
+    for fname, helper, arith in (("wbtree::map::WBTreeMap::insert", "wbtree::map::Node::insert_simple", "Add"),
+                                ("wbtree::map::WBTreeMap::remove", "wbtree::map::WBTreeMap::contains_key", "Sub")):
+        b = F.one(fname)
+        hb = [bb for bb, tm in b.calls() if short(callee(tm)) == helper]
+        if len(hb) != 1:
+            raise AnchorError("%s calls %s %d times" % (fname, helper, len(hb)))
+        t = Taint(b, {b.term(hb[0])["dest"][0]: "H"})
+        ariths = []
+        for bi, bl in enumerate(b.blocks):
+            for s_ in bl["s"]:
+                rv = s_.get("rv")
+                if rv and rv.get("k") == "bin" and rv["op"].startswith(arith):
+                    pl = op_place(rv["a"])
+                    if pl is not None and "WBTreeMap<" in b.local_ty(pl[0]) and [x for x in pl[1] if x != "*"][:1] == [".1"]:
+                        ariths.append(bi)
+        if len(ariths) != 1:
+            res.bad("M-LEN:%s:len-arithmetic-count=%d" % (fname.rsplit("::", 1)[-1], len(ariths)), b.where(), "%s changes len at %d places (expected one)" % (fname, len(ariths)))
+            continue
+        ab = ariths[0]
+        decided = False
+        for sw, bl in enumerate(b.blocks):
+            tt = bl["t"]
+            if tt["k"] == "switch" and b.dominates(sw, ab) and "H" in t.read_op(tt["d"]):
+                succs = b.succ(sw)
+                if sum(1 for s_ in succs if ab in b.reach([s_])) < len(succs):
+                    decided = True
+        if decided:
+            res.ok()
+        else:
+            res.bad("M-LEN:%s:len-change-unconditional" % fname.rsplit("::", 1)[-1], b.where(ab),
+                    "%s changes len on a path that is not decided by the outcome of %s" % (fname, helper.rsplit("::", 1)[-1]))
     res.sample({"note": "fields by declaration order: .0 root, .1 len"})
     return res
 
